@@ -119,6 +119,32 @@ let do_reply id ins outs =
     else verdict "reply" id "diff" tag detail
   | _ -> verdict "reply" id "diff" "malformed-line" ""
 
+(* ---- engine resolver, mode e2e ----  e2e <id> <proto> <qhex> <expectedhex> => <nrep> <rephex>
+   real proxy + real resolver with the response cache on: the reply must be the message the upstream gives for
+   this very question (ID of this query, TTL possibly aged, never raised), judged by the extracted c01_ok *)
+let do_e2e id ins outs =
+  match ins, outs with
+  | [proto; qh; eh], [nrep; rep] ->
+    let q = bytes_of_token qh and exp = bytes_of_token eh in
+    let pr = if proto = "udp" then UDP else TCP in
+    let tag = "e2e/" ^ proto in
+    if nrep <> "1" then verdict "e2e" id "spec:C01" tag (Printf.sprintf "%s replies to one well-formed query" nrep)
+    else (match full_bytes rep with
+      | None -> verdict "e2e" id "diff" tag "reply too long to compare"
+      | Some rb ->
+        let body = (match pr, rb with TCP, _ :: _ :: r -> r | _, r -> r) in
+        (* the TTL of the single answer record sits 6 bytes after the question *)
+        let qlen = List.length q in
+        let toff = qlen + 6 in
+        let nth l i = int_of_z (List.nth l i) in
+        let ttl_of l = if List.length l >= toff + 4 then Some ((((nth l toff) * 256 + nth l (toff+1)) * 256 + nth l (toff+2)) * 256 + nth l (toff+3)) else None in
+        let exp' = (match ttl_of body, ttl_of exp with
+            | Some t, Some t0 when t <= t0 -> List.mapi (fun i b -> if i >= toff && i < toff + 4 then List.nth body i else b) exp
+            | _ -> exp) in
+        if c01_ok pr q (Up exp') rb then verdict "e2e" id "ok" tag ""
+        else verdict "e2e" id "spec:C01" tag (Printf.sprintf "reply=%s expected (apart from an aged TTL)=%s" rep (enc_out exp)))
+  | _ -> verdict "e2e" id "diff" "malformed-line" ""
+
 (* ---- engine query ----
    query <id> <payloadhex> => <ok|err|PANIC|TIMEOUT> id class type rd msgsize namehex peerhex mac payloadenc *)
 let do_query id ins outs =
@@ -1007,6 +1033,7 @@ let () =
       | "rhist" :: id :: rest -> let (i, o) = split_arrow rest in do_rhist id i o
       | "fault" :: id :: rest -> let (i, o) = split_arrow rest in do_fault id i o
       | "sid" :: id :: rest -> let (i, o) = split_arrow rest in do_sid id i o
+      | "e2e" :: id :: rest -> let (i, o) = split_arrow rest in do_e2e id i o
       | "cis" :: id :: rest -> let (i, o) = split_arrow rest in do_cis id i o
       | "ci" :: id :: rest -> let (i, o) = split_arrow rest in do_ci id i o
       | "hdr" :: id :: rest -> let (i, o) = split_arrow rest in do_hdr id i o
